@@ -5,6 +5,7 @@
 package vnet
 
 import (
+	"crypto/tls"
 	"errors"
 	"io"
 	"net"
@@ -94,6 +95,7 @@ type Listener struct {
 	closeq  chan struct{}
 	Closed  bool
 	net     *Net
+	tcp     *net.TCPAddr
 }
 
 func (l *Listener) Accept() (net.Conn, error) {
@@ -218,3 +220,100 @@ func UnixConnWrite(c *net.UnixConn, b []byte) (int, error) { return UnixConns[c]
 func UnixConnClose(c *net.UnixConn) error                  { return UnixConns[c].Close() }
 func UnixConnLocalAddr(c *net.UnixConn) net.Addr           { return UnixConns[c].LocalAddr() }
 func UnixConnRemoteAddr(c *net.UnixConn) net.Addr          { return UnixConns[c].RemoteAddr() }
+
+// ---- TLS flavour: crypto/tls is a contract stub (transparent byte stream, no
+// handshake bytes, no certificate checks). tls.NewListener / tls.DialWithDialer
+// are routed here by the VM; a zero *tls.Conn serves as handle for the
+// underlying vnet connection and its methods are redirected to the functions
+// below. What crypto/tls does on the wire is outside every claim.
+
+var TLSConns = map[*tls.Conn]net.Conn{}
+
+// TLSDialFail makes the next TLS dial fail after the TCP connection was made
+// (certificate rejected / handshake failure): the connection is closed.
+var TLSDialFail bool
+
+// TLSConfigs records the configuration handed to the TLS layer per connection.
+var TLSConfigs = map[*tls.Conn]*tls.Config{}
+
+type TLSListener struct {
+	Inner  net.Listener
+	Config *tls.Config
+}
+
+func (l *TLSListener) Accept() (net.Conn, error) {
+	c, err := l.Inner.Accept()
+	if err != nil {
+		return nil, err
+	}
+	h := &tls.Conn{}
+	TLSConns[h] = c
+	TLSConfigs[h] = l.Config
+	return h, nil
+}
+func (l *TLSListener) Close() error   { return l.Inner.Close() }
+func (l *TLSListener) Addr() net.Addr { return l.Inner.Addr() }
+
+func TLSNewListener(inner net.Listener, config *tls.Config) net.Listener {
+	return &TLSListener{Inner: inner, Config: config}
+}
+
+func TLSDialWithDialer(d *net.Dialer, network, addr string, config *tls.Config) (*tls.Conn, error) {
+	c, err := DialHook(network, addr)
+	if err != nil {
+		return nil, err
+	}
+	if TLSDialFail {
+		TLSDialFail = false
+		c.Close()
+		return nil, errors.New("vnet: tls handshake failure")
+	}
+	h := &tls.Conn{}
+	TLSConns[h] = c
+	TLSConfigs[h] = config
+	return h, nil
+}
+
+func TLSConnRead(c *tls.Conn, b []byte) (int, error)  { return TLSConns[c].Read(b) }
+func TLSConnWrite(c *tls.Conn, b []byte) (int, error) { return TLSConns[c].Write(b) }
+func TLSConnClose(c *tls.Conn) error                  { return TLSConns[c].Close() }
+func TLSConnLocalAddr(c *tls.Conn) net.Addr           { return TLSConns[c].LocalAddr() }
+func TLSConnRemoteAddr(c *tls.Conn) net.Addr          { return TLSConns[c].RemoteAddr() }
+
+// TLSVersion is what the stub reports as negotiated version.
+const TLSVersion = tls.VersionTLS13
+
+func TLSConnState(c *tls.Conn) tls.ConnectionState {
+	return tls.ConnectionState{Version: TLSVersion, HandshakeComplete: true, ServerName: string(TLSConns[c].RemoteAddr().String())}
+}
+
+// ---- TCP listener handles (net.ListenTCP is what transport/ws uses)
+
+var TCPListeners = map[*net.TCPListener]*Listener{}
+
+func tcpKey(a *net.TCPAddr) string {
+	p := a.Port
+	s := ""
+	if p == 0 {
+		return ":0"
+	}
+	for p > 0 {
+		s = string(rune('0'+p%10)) + s
+		p /= 10
+	}
+	return ":" + s
+}
+
+func TCPListen(network string, laddr *net.TCPAddr) (*net.TCPListener, error) {
+	l, err := ListenHook(network, tcpKey(laddr))
+	if err != nil {
+		return nil, err
+	}
+	h := &net.TCPListener{}
+	TCPListeners[h] = l.(*Listener)
+	l.(*Listener).tcp = &net.TCPAddr{Port: laddr.Port}
+	return h, nil
+}
+func TCPAccept(h *net.TCPListener) (net.Conn, error) { return TCPListeners[h].Accept() }
+func TCPListenerClose(h *net.TCPListener) error      { return TCPListeners[h].Close() }
+func TCPListenerAddr(h *net.TCPListener) net.Addr    { return TCPListeners[h].tcp }
